@@ -2682,14 +2682,15 @@ handleMessage(MasterConnection self, uint8_t* buffer, int msgSize)
 
         /* Check for STARTDT_ACT message */
         else if ((buffer [2] & 0x07) == 0x07) {
-            CS104_Slave_activate(self->slave, self);
-
             HighPriorityASDUQueue_resetConnectionQueue(self->highPrioQueue);
 
             DEBUG_PRINT("CS104 SLAVE: Send STARTDT_CON\n");
 
             if (writeToSocket(self, STARTDT_CON_MSG, STARTDT_CON_MSG_SIZE) < 0)
                 return false;
+
+            /* activate after STARTDT con is out: the ACTIVATED notification may send ASDUs, and no I-format APDU may precede the confirmation */
+            CS104_Slave_activate(self->slave, self);
         }
 
         /* Check for STOPDT_ACT message */
